@@ -139,6 +139,10 @@ type options struct {
 
 	// decodeDepth is the number of nested decode calls that are currently in progress (see maxDecodeDepth).
 	decodeDepth int
+
+	// encodeDepth is the number of nested encode calls that are currently in progress: a value that is nested deeper
+	// than Decode accepts (see maxDecodeDepth) is not encoded either, the result could not be read back.
+	encodeDepth int
 }
 
 // maxDecodeDepth limits how deep the values of a recursive type can be nested in the data handed to Decode: every
